@@ -313,10 +313,10 @@ def main(tier: str, replay: str | None = None):
             ops |= {e["op"] for e in c["log"]}
             n_oblig += sum(1 for ob in c["oblig"] if ob["public"] and not ob["masked"])
             n_compat += bool(c["allcompat"] and c["log"])
-            n_private += sum(1 for ob in c["oblig"] if ob["op"] in ("Remove", "ChangeKind", "ChangeValue", "RemoveBase") and not ob["public"])
+            n_private += sum(1 for ob in c["oblig"] if ob["op"] in ("Remove", "ChangeKind", "ChangeValue", "RemoveBase", "RemoveExtBase") and not ob["public"])
             n_cyc += bool(g["old"]["cyc"] and exported)
             n_ext += bool(g["old"]["ext"] and exported)
-    if ops != {"Remove", "ChangeKind", "ChangeValue", "RemoveBase", "AddBase", "AddPublic", "AddOptKw", "AddReturn", "Vendor"}:
+    if ops != {"Remove", "ChangeKind", "ChangeValue", "RemoveBase", "AddBase", "AddPublic", "AddOptKw", "AddReturn", "Vendor", "RemoveExtBase"}:
         die(f"C11: vacuous enumeration, edits reached: {sorted(ops)}")
     if not (n_oblig and n_compat and n_private and n_cyc and n_ext):
         die(f"C11: vacuous enumeration: obligations={n_oblig} compatible={n_compat} private-edits={n_private} cyclic={n_cyc} dangling={n_ext}")
